@@ -41,7 +41,7 @@ for d in sorted(glob.glob(os.path.join(HERE, RAW, "*", "m*"))):
                          "applied": ver[vname][0], "failing_demo_tests": ver[vname][1][:300]},
         "detected": sweep.get(vname, ("not-run", []))[0] == "CAUGHT",
         "detected_by_rules": sweep.get(vname, ("", []))[1],
-        "round": 2 if SUF else 1,
+        "round": int(os.environ.get("ROUND", "2" if SUF else "1")),
         "check_run": "bin/mutrun.sh seeded/%s/patch.diff %s" % (name, pid),
     }
     json.dump(meta, open(os.path.join(out, "meta.json"), "w"), indent=1)
